@@ -359,6 +359,23 @@ let run_merger toks =
       | Merger.RBytes b -> hex_of_bytes b | Merger.RInt z -> "i:" ^ hex_of_z z | Merger.RErr e -> "e:" ^ err_name e) res)
   | _ -> failwith "merger args"
 
+(* ---- C20: hand-modelled codecs ------------------------------------------------ *)
+let run_codec toks =
+  match toks with
+  | ["ivfc"; d] -> (match Codecs.ivfc_from_bytes (bytes_of_hex d) with
+      | Err e -> "e:" ^ err_name e
+      | Ok v -> String.concat "," (Stdlib.List.map (fun l -> hex_of_z l.Codecs.l_off ^ ":" ^ hex_of_z l.Codecs.l_size ^ ":" ^ hex_of_z l.Codecs.l_log2) v.Codecs.iv_levels)
+                ^ " " ^ hex_of_z v.Codecs.iv_mhs ^ " " ^ hex_of_z v.Codecs.iv_dsize ^ " " ^ hex_of_bytes (Codecs.ivfc_to_bytes v))
+  | ["dpfs"; d] -> (match Codecs.dpfs_from_bytes (bytes_of_hex d) with
+      | Err e -> "e:" ^ err_name e
+      | Ok v -> String.concat "," (Stdlib.List.map (fun l -> hex_of_z l.Codecs.l_off ^ ":" ^ hex_of_z l.Codecs.l_size ^ ":" ^ hex_of_z l.Codecs.l_log2) v.Codecs.dp_levels)
+                ^ " " ^ hex_of_bytes (Codecs.dpfs_to_bytes v))
+  | ["seeddb"; d] ->
+      let db = Codecs.seeddb_load (bytes_of_hex d) [] in
+      String.concat "," (Stdlib.List.map (fun (k, v) -> hex_of_z k ^ ":" ^ (let h = hex_of_bytes v in String.sub h 2 (String.length h - 2))) db)
+      ^ " " ^ hex_of_bytes (Codecs.seeddb_save db)
+  | _ -> failwith "codec args"
+
 let dispatch (line : string) : string =
   match String.split_on_char ' ' (String.trim line) with
   | "engine" :: toks -> run_engine toks
@@ -379,6 +396,7 @@ let dispatch (line : string) : string =
   | "lzss" :: toks -> run_lzss toks
   | "sched" :: toks -> run_sched toks
   | "merger" :: toks -> run_merger toks
+  | "codec" :: toks -> run_codec toks
   | "nandinfer" :: toks -> run_nandinfer toks
   | e :: _ -> failwith ("unknown entry " ^ e)
   | [] -> ""
